@@ -4,7 +4,7 @@ package checks
 //
 // Bounded-exhaustive differential: a small grammar of table sets (two vertex
 // tables, a link table whose rows cover normal, missing, empty, dangling and
-// repeated links) x 6 mappings (distinct/shared labels, one prefix a prefix of
+// repeated links) x 8 mappings (distinct/shared labels, one prefix a prefix of
 // the other, both link directions, two edge types over one table) is served by
 // the real SimpleTableServicer over an in-memory gRPC connection and exposed by
 // the real gripper.NewTabularGraph; every well-typed program up to a length
@@ -123,6 +123,9 @@ func c15Cases(thorough bool) []c15Case {
 		{"reverse-direction", map[string][2]string{"A:": {"T1", "P"}, "B:": {"T2", "Q"}}, map[string][5]string{"e1": {"B:", "A:", "x", "t", "f"}}},
 		{"two-edge-types", map[string][2]string{"A:": {"T1", "P"}, "B:": {"T2", "Q"}}, map[string][5]string{"e1": {"A:", "B:", "x", "f", "t"}, "e2": {"B:", "A:", "y", "t", "f"}}},
 		{"same-label-both-directions", map[string][2]string{"A:": {"T1", "P"}, "B:": {"T2", "Q"}}, map[string][5]string{"e1": {"A:", "B:", "x", "f", "t"}, "e2": {"B:", "A:", "x", "t", "f"}}},
+		// one hop that reaches rows of two tables mapped to the same label (second edge type: self links of T1 rows)
+		{"shared-label-mixed-targets", map[string][2]string{"A:": {"T1", "P"}, "B:": {"T2", "P"}}, map[string][5]string{"e1": {"A:", "B:", "x", "f", "t"}, "e2": {"A:", "A:", "y", "f", "f"}}},
+		{"shared-label-mixed-targets-prefix-lengths", map[string][2]string{"A:": {"T1", "P"}, "BB:": {"T2", "P"}}, map[string][5]string{"e1": {"A:", "BB:", "x", "f", "t"}, "e2": {"A:", "A:", "y", "f", "f"}}},
 	}
 	var out []c15Case
 	for _, lv := range variants {
@@ -392,7 +395,7 @@ func C15(tier string, args []string) int {
 	run.Coverage["non_minimal_disagreements"] = res.Stats["non_minimal_disagreements"]
 	run.Coverage["worker_crashes"] = res.Crashes
 	run.Coverage["exhaustive"] = !res.DeadlineHit && res.Done >= w.N()
-	run.Coverage["rule"] = "10 link-table contents (36 more pairs when thorough) x 6 mappings, each served by the real SimpleTableServicer over bufconn and exposed by gripper.NewTabularGraph; every well-typed program up to the length bound over 5 starts and 25 step instances; reference = refsem on the graph materialised per the property's definition (edges keyed per link row, so repeated links stay two edges)"
+	run.Coverage["rule"] = "10 link-table contents (36 more pairs when thorough) x 8 mappings, each served by the real SimpleTableServicer over bufconn and exposed by gripper.NewTabularGraph; every well-typed program up to the length bound over 5 starts and 25 step instances; reference = refsem on the graph materialised per the property's definition (edges keyed per link row, so repeated links stay two edges)"
 	s := res.Samples
 	if len(s) == 0 {
 		s = []string{w.cases[1].Name + ": V().hasLabel(P).out()"}
